@@ -4,8 +4,8 @@ import connlane as L
 MC = {"quick": [("mc-routing", "MCLdapConn", "MCConn_c01_quick.cfg", 600, 8)],
       "thorough": [("mc-routing", "MCLdapConn", "MCConn_c01_thorough.cfg", 3000, 12),
                    ("mc-3ops", "MCLdapConn", "MCConn3_roles.cfg", 3000, 12)]}
-PROFILES = {"quick": [("plain", 120), ("orphans", 120), ("burst", 120), ("long", 40), ("drops", 120)],
-            "thorough": [("plain", 1500), ("orphans", 1500), ("burst", 1500), ("long", 400), ("mixed", 1500), ("drops", 1500)]}
+PROFILES = {"quick": [("plain", 120), ("orphans", 120), ("burst", 120), ("long", 40), ("drops", 120), ("split", 120)],
+            "thorough": [("plain", 1500), ("orphans", 1500), ("burst", 1500), ("long", 400), ("mixed", 1500), ("drops", 1500), ("split", 1500)]}
 SCRIPTS = {"quick": ("GenConn_len4.cfg", 8), "thorough": ("GenConn_len5.cfg", 10)}
 RULE = ("model: every interleaving of two operations of any kind (three with fixed roles in thorough) with the server answering in any "
         "order, orphan responses, ID counter at 0 and next to the wrap point; implementation: seeded scenarios with 2-8 concurrent "
